@@ -11,21 +11,43 @@ Proof.
   - intros <-. apply Z.lxor_nilpotent.
 Qed.
 
-(* what Equal computes for any width of b: a is compared with b truncated to a's width *)
-Lemma Equal_general wa wb a b : 1 <= wa -> 0 <= wb -> fits wa a -> fits wb b ->
-  Equal_m wa wb a b = b2z (a =? b mod 2 ^ wa).
+Lemma lxor_fits w a b : 0 <= w -> fits w a -> fits w b -> fits w (Z.lxor a b).
 Proof.
-  intros Hwa Hwb Ha Hb. unfold Equal_m. cbv zeta. rewrite Xor2_char by (auto; lia).
-  rewrite <- lxor_trunc_zero by (auto; lia).
-  set (x := trunc wa (Z.lxor a b)). assert (Hx : fits wa x) by (apply trunc_fits; lia).
-  destruct (Z.eqb_spec wa 1) as [-> | Hne].
-  - apply fits1_is_bit in Hx. apply Not1_bit; auto.
-  - change (Nor_m 1 1 (BitsLSBF_m wa x)) with (Not_m 1 (OrBits_m wa 1 x)).
+  intros Hw Ha Hb. rewrite <- (fits_trunc w a Hw Ha), <- (fits_trunc w b Hw Hb). rewrite <- trunc_lxor by lia.
+  apply trunc_fits; lia.
+Qed.
+Lemma lxor_zero a b : (Z.lxor a b =? 0) = (a =? b).
+Proof.
+  apply eq_true_iff_eq. rewrite !Z.eqb_eq. split; [apply Z.lxor_eq | intros <-; apply Z.lxor_nilpotent].
+Qed.
+
+(* what Equal computes for any xor-wire width wx = eqw wa wb the Xor2 can fill: a zero test of (a xor b) cut to wx bits *)
+Lemma Equal_char mid eqw wa wb a b : 1 <= eqw wa wb -> 0 <= wa -> 0 <= wb -> eqw wa wb <= mid wa wb (eqw wa wb) ->
+  fits wa a -> fits wb b -> Equal_m mid eqw wa wb a b = b2z (trunc (eqw wa wb) (Z.lxor a b) =? 0).
+Proof.
+  intros Hwx Hwa Hwb Hm Ha Hb. unfold Equal_m. cbv zeta. set (wx := eqw wa wb) in *. rewrite Xor2_char by (auto; lia).
+  set (x := trunc wx (Z.lxor a b)). assert (Hx : fits wx x) by (apply trunc_fits; lia).
+  destruct (Z.eqb_spec wx 1) as [E | Hne].
+  - rewrite E in Hx. apply fits1_is_bit in Hx. apply Not1_bit; auto.
+  - change (Nor_m 1 1 (BitsLSBF_m wx x)) with (Not_m 1 (OrBits_m wx 1 x)).
     rewrite OrBits_correct by (auto; lia). unfold orbits_spec. rewrite Not1_bit by apply b2z_is_bit.
     destruct (x =? 0); reflexivity.
 Qed.
-Lemma Equal_correct w a b : 1 <= w -> fits w a -> fits w b -> Equal_m w w a b = equal_spec a b.
-Proof. intros. rewrite Equal_general by (auto; lia). rewrite (fits_mod w b) by (auto; lia). reflexivity. Qed.
+(* the xor wire holds both operands: numerical equality *)
+Lemma Equal_correct mid eqw wa wb a b : 1 <= eqw wa wb -> 0 <= wa <= eqw wa wb -> 0 <= wb <= eqw wa wb ->
+  eqw wa wb <= mid wa wb (eqw wa wb) -> fits wa a -> fits wb b -> Equal_m mid eqw wa wb a b = equal_spec a b.
+Proof.
+  intros Hwx Hwa Hwb Hm Ha Hb. rewrite Equal_char by (auto; lia). unfold equal_spec. f_equal.
+  rewrite fits_trunc; [apply lxor_zero | lia |].
+  apply lxor_fits; [lia | apply (fits_le wa); auto; lia | apply (fits_le wb); auto; lia].
+Qed.
+(* the xor wire has a's width (unrepaired tree): b is compared modulo 2^wa *)
+Lemma Equal_general mid wa wb a b : 1 <= wa -> 0 <= wb -> wa <= mid wa wb wa -> fits wa a -> fits wb b ->
+  Equal_m mid eqw_a wa wb a b = b2z (a =? b mod 2 ^ wa).
+Proof.
+  intros Hwa Hwb Hm Ha Hb. rewrite Equal_char by (unfold eqw_a; auto; lia). unfold eqw_a.
+  rewrite lxor_trunc_zero by (auto; lia). reflexivity.
+Qed.
 
 (* ------------------------------------------------------------------ AnyEqual *)
 Lemma lor_all_app l1 l2 : lor_all (l1 ++ l2) = Z.lor (lor_all l1) (lor_all l2).
@@ -51,16 +73,16 @@ Proof.
   rewrite (lor_all_row (c i) (e i)). f_equal. rewrite existsb_map. reflexivity.
 Qed.
 
-Lemma AnyEqual_correct w wr ins : 1 <= w -> 1 <= wr -> (2 <= length ins)%nat -> Forall (fits w) ins ->
-  AnyEqual_m w wr ins = any_equal_spec ins.
+Lemma AnyEqual_correct mid eqw w wr ins : 1 <= w -> 1 <= wr -> eqw w w = w -> w <= mid w w w -> (2 <= length ins)%nat ->
+  Forall (fits w) ins -> AnyEqual_m mid eqw w wr ins = any_equal_spec ins.
 Proof.
-  intros Hw Hwr Hn Hf. unfold AnyEqual_m, any_equal_spec. cbv zeta. rewrite Or_char_total by lia.
+  intros Hw Hwr He Hm Hn Hf. unfold AnyEqual_m, any_equal_spec. cbv zeta. rewrite Or_char_total by lia.
   set (n := length ins).
   assert (Hnth : forall i, fits w (nth i ins 0)).
   { intros i. destruct (nth_in_or_default i ins 0) as [Hin | ->].
     - rewrite Forall_forall in Hf. auto.
     - split; [lia | apply pow2_pos; lia]. }
-  erewrite flat_map_ext; [|intros i; apply flat_map_ext; intros j; rewrite Equal_correct by auto; reflexivity].
+  erewrite flat_map_ext; [|intros i; apply flat_map_ext; intros j; rewrite Equal_correct by (rewrite ?He; auto; lia); reflexivity].
   rewrite (lor_all_pairs Nat.eqb (fun i j => nth i ins 0 =? nth j ins 0)).
   apply trunc_b2z; lia.
 Qed.
@@ -124,30 +146,32 @@ Proof.
 Qed.
 
 (* ------------------------------------------------------------------ ComparatorSignedUnsigned *)
-Lemma Xor2_bits x y : Xor2_m 1 1 1 (b2z x) (b2z y) = b2z (xorb x y).
-Proof. destruct x, y; reflexivity. Qed.
+Lemma Xor2_bits mid x y : 1 <= mid 1 1 1 -> Xor2_m mid 1 1 1 (b2z x) (b2z y) = b2z (xorb x y).
+Proof.
+  intros Hm. rewrite Xor2_char by (try lia; apply is_bit_fits1, b2z_is_bit). destruct x, y; reflexivity.
+Qed.
 
 Lemma sign_bit w a : 1 <= w -> fits w a -> Sign_m w a = b2z (2 ^ (w - 1) <=? a).
 Proof.
   intros Hw Ha. unfold Sign_m. rewrite Bit_char1 by lia. unfold bit. rewrite testbit_high by (auto; lia). reflexivity.
 Qed.
 
-Lemma ComparatorSU_correct w a b : 1 <= w -> fits w a -> fits w b -> ComparatorSU_m w a b = cmp_su_spec w a b.
+Lemma ComparatorSU_correct mid w a b : 1 <= mid 1 1 1 -> 1 <= w -> fits w a -> fits w b -> ComparatorSU_m mid w a b = cmp_su_spec w a b.
 Proof.
-  intros Hw Ha Hb. unfold ComparatorSU_m, cmp_su_spec. cbv zeta.
+  intros Hmid Hw Ha Hb. unfold ComparatorSU_m, cmp_su_spec. cbv zeta.
   destruct (sub_facts w a b ltac:(lia) Ha Hb) as [Hf [Hlt Heq]].
   set (sub := Sub_m (w + 1) a b) in *.
   rewrite (sign_bit w a), (sign_bit w b) by auto.
   change (Sign_m (w + 1) sub) with (Bit_m 1 (w + 1 - 1) sub). replace (w + 1 - 1) with w by lia. rewrite Bit_char1 by lia. rewrite Hlt.
   rewrite EqualConstant_correct by (try lia; auto; apply fits_0; lia).
   unfold equal_spec. rewrite Heq. rewrite !Not1_bit by apply b2z_is_bit. rewrite And2_char.
-  rewrite Xor2_bits.
+  rewrite Xor2_bits by auto.
   assert (Hd : 2 ^ w = 2 * 2 ^ (w - 1)).
   { replace w with ((w - 1) + 1) at 1 by lia. apply pow2_double. lia. }
   destruct Ha as [Ha0 Ha1], Hb as [Hb0 Hb1]. unfold sgn.
   assert (Egt : trunc 1 (Z.land (b2z (b2z (a =? b) =? 0)) (b2z (b2z (a <? b) =? 0))) = b2z (b <? a)).
   { destruct (Z.ltb_spec a b), (Z.eqb_spec a b), (Z.ltb_spec b a); try lia; reflexivity. }
-  rewrite Egt. rewrite !Xor2_bits.
+  rewrite Egt. rewrite !Xor2_bits by auto.
   destruct (Z.leb_spec (2 ^ (w - 1)) a), (Z.leb_spec (2 ^ (w - 1)) b),
     (Z.ltb_spec a (2 ^ (w - 1))), (Z.ltb_spec b (2 ^ (w - 1))); try lia; cbn [xorb];
   repeat match goal with |- context [?x <? ?y] => destruct (Z.ltb_spec x y) end;
@@ -168,16 +192,16 @@ Proof.
   intros Hw Hwr Ha Hb. unfold Min2_m, min2_spec. rewrite Comparator_correct by auto. unfold cmp_spec, cmp_gt. cbn [fst].
   rewrite Mux2_char, odd_b2z, trunc_mod by lia. f_equal. destruct (Z.ltb_spec b a); lia.
 Qed.
-Lemma SignedMax2_correct w wr a b : 1 <= w -> 0 <= wr -> fits w a -> fits w b ->
-  SignedMax2_m w wr a b = smax2_spec w wr a b.
+Lemma SignedMax2_correct mid w wr a b : 1 <= mid 1 1 1 -> 1 <= w -> 0 <= wr -> fits w a -> fits w b ->
+  SignedMax2_m mid w wr a b = smax2_spec w wr a b.
 Proof.
-  intros Hw Hwr Ha Hb. unfold SignedMax2_m, smax2_spec. rewrite ComparatorSU_correct by auto.
+  intros Hmid Hw Hwr Ha Hb. unfold SignedMax2_m, smax2_spec. rewrite ComparatorSU_correct by auto.
   unfold cmp_su_spec, su_lt. cbn [snd]. rewrite Mux2_char, odd_b2z, trunc_mod by lia. reflexivity.
 Qed.
-Lemma SignedMin2_correct w wr a b : 1 <= w -> 0 <= wr -> fits w a -> fits w b ->
-  SignedMin2_m w wr a b = smin2_spec w wr a b.
+Lemma SignedMin2_correct mid w wr a b : 1 <= mid 1 1 1 -> 1 <= w -> 0 <= wr -> fits w a -> fits w b ->
+  SignedMin2_m mid w wr a b = smin2_spec w wr a b.
 Proof.
-  intros Hw Hwr Ha Hb. unfold SignedMin2_m, smin2_spec. rewrite ComparatorSU_correct by auto.
+  intros Hmid Hw Hwr Ha Hb. unfold SignedMin2_m, smin2_spec. rewrite ComparatorSU_correct by auto.
   unfold cmp_su_spec, su_gt. cbn [fst snd]. rewrite Mux2_char, odd_b2z, trunc_mod by lia. reflexivity.
 Qed.
 
